@@ -396,6 +396,31 @@ def fam_c04_ext(step=13):
     return out
 
 
+def fam_c04_hostnil():
+    """A nil map / nil list of a concrete Go type bound by the host grows by being stored back into the binding that holds it -- the NEAREST one,
+    from whatever block the store is made (plain assignment semantics), never a new binding in the current block."""
+    out = []
+    stores = {"member": lambda: [Let([Member(Id("hnm"), "k")], [I(1)])], "item": lambda: [Let([Idx(Id("hnm"), S("k"))], [I(1)])], "append": lambda: [E(OpAsg(Id("hnl"), "+", I(7)))],
+              "index-len": lambda: [Let([Idx(Id("hnl"), I(0))], [I(7)])], "member-twice": lambda: [Let([Member(Id("hnm"), "k")], [I(1)]), Let([Member(Id("hnm"), "j")], [I(2)])],
+              "opasg-item": lambda: [Let([Idx(Id("hnm"), S("k"))], [I(1)]), E(OpAsg(Idx(Id("hnm"), S("k")), "+", I(4)))]}
+    obs = [P(Id("hnm")), P(Id("hnl")), P(Len_(Id("hnm"))), P(Len_(Id("hnl")))]
+    for d in (1, 2):
+        for combo in itertools.product(SCOPE_WRAPS, repeat=d):
+            if d == 2 and ((combo[0] in (s_cfor, s_while) and combo[1] is combo[0]) or (SCOPE_WRAPS.index(combo[0]) + SCOPE_WRAPS.index(combo[1])) % 3):
+                continue
+            for sn, st in stores.items():
+                c = Ctr(50)
+                body = st() + obs
+                if d == 2:
+                    body = combo[1](body, c) + obs
+                prog = combo[0](body, c) + obs + [Ret(I(0))]
+                out.append({"id": "c04-hostnil-%s-%s" % ("_".join(w.__name__[2:] for w in combo), sn), "prog": prog})
+    out.append({"id": "c04-hostnil-closure", "prog": [Let("f", Fn([], [Let([Member(Id("hnm"), "k")], [I(1)]), Ret(Id("hnm"))])), P(ACall(Id("f")))] + obs + [Ret(I(0))]})
+    out.append({"id": "c04-hostnil-shadowed", "prog": [If(B(True), [Var("hnm", M()), Let([Member(Id("hnm"), "k")], [I(1)]), P(Id("hnm"))])] + obs + [Ret(I(0))]})
+    out.append({"id": "c04-hostnil-param", "prog": [FnStmt("g", ["q"], [Let([Member(Id("q"), "k")], [I(1)]), Ret(Id("q"))]), P(Call("g", Id("hnm")))] + obs + [Ret(I(0))]})
+    return out
+
+
 def fam_closures():
     out = []
     def add(n, prog): out.append({"id": "c04-clo-" + n, "prog": prog})
